@@ -73,6 +73,17 @@ check("C03", level="model_checking", engine="nx",
       note=NX_NOTE + " The reference set is defined relative to a converged base build; histories after partial or failed "
            "builds are covered by C01/C02, not by this oracle.", design_ref="5/C03")
 
+check("C07", level="fault_enumeration", engine="nx",
+      technique="exhaustive crash-point enumeration (every mutating libc call x torn/untorn x orphan outcomes) and interrupt points on the real ninja main loop, followed by BFS over recovery histories",
+      text="For each crash/interrupt template and schedule, ninja is killed at every file-system mutating operation (create, "
+           "append with and without a torn part, mkdir, remove, rename, truncate), orphaned commands complete or not; an "
+           "interrupt is offered at every wait and as a child dying of the signal; all resulting worlds are expanded by "
+           "further operations: the next invocation must start normally and, after exit 0, clean-build and convergence "
+           "oracles must hold; interrupted builds exit 130, remove the lock file, modified outputs (always for depfile "
+           "statements) and depfiles of killed commands.",
+      note=NX_NOTE + " Death is modelled at libc-call granularity on an in-memory file system; real signals, process groups "
+           "and kernel write atomicity are outside this engine (planned: engine B).", design_ref="5/C07")
+
 ALL = ["C%02d" % i for i in range(1, 21)]
 
 
